@@ -2,7 +2,7 @@
 # Case builders for both sides (executor family it.*, Gallina model coq/Model/Iter.v), system
 # generators, the model-trace cache (largest intermediate iterate, needed by the C08 oracle) and the
 # numpy reference computations.
-import math, json
+import math, json, os
 from fractions import Fraction
 import numpy as np
 from common import *
@@ -93,38 +93,94 @@ class Ans:
         n = items[2][1]
         self.x = [bits_f64(it[1]) for it in items[3:3 + n]]
         self.budget = items[3 + n][1]
+        self.exit = None
         if len(items) > 4 + n:
             self.X = bits_f64(items[4 + n][1])
+        if len(items) > 5 + n:
+            self.exit = items[5 + n][1]
 
 # ----------------------------------------------------------------------------- model trace cache
 PENDING = []        # cases whose oracle needs the model's ghost trace
 TRACE = {}          # executor line -> Ans of the model (with X), or None if the model run failed
-TRACE_STATS = {"model_runs": 0, "model_vs_impl_same_outcome": 0, "model_vs_impl_differ": 0}
+TRACE_STATS = {"prescreened": 0, "model_runs": 0}
 
-def ensure_traces(tag):
-    todo = [c for c in PENDING if c.line not in TRACE]
+def needs_trace(case, a):
+    """the drift allowance (hence the model's trace) matters only for an Ok answer whose exact residual exceeds tol"""
+    if a.panic or not a.ok or a.x is None or not all_finite(a.x):
+        return False
+    s = Sys.from_json(case.meta["sys"])
+    if len(a.x) != s.rows:
+        return False
+    nb = norm2(s.b)
+    return exact_residual_norm(s, a.x) / (nb if nb != 0.0 else 1.0) > case.meta["tol"]
+
+def ensure_traces(tag, force=False):
+    """one batch: run the executor on every pending case, keep those whose verdict depends on the
+    allowance (all of them if force), evaluate the float model (with its ghost trace) on exactly those"""
+    todo = [c for c in PENDING if TRACE.get(c.line) is None]
     del PENDING[:]
     if not todo:
         return
+    need = []
+    if force:
+        need = todo
+    else:
+        exe = os.path.join(TARGET, "debug", "exec")
+        ans = run_harness(exe, ["p%d f64 %s" % (k, c.line) for k, c in enumerate(todo)], tag + "_pre")
+        for k, c in enumerate(todo):
+            TRACE[c.line] = None
+            try:
+                if needs_trace(c, Ans(decode_harness(ans["p%d" % k]))):
+                    need.append(c)
+            except Exception:
+                need.append(c)
+        TRACE_STATS["prescreened"] += len(todo)
+    if not need:
+        return
     terms = []
-    for k, c in enumerate(todo):
+    for k, c in enumerate(need):
         m = c.meta
         s = Sys.from_json(m["sys"])
-        run = coq_run(m["solver"], s, m["maxit"], m["tol"])
-        terms.append(("t%d" % k, "@it_flat_tr SAF flat_f %d %s" % (m["maxit"], run)))
+        terms.append(("t%d" % k, "@it_flat_tr SAF flat_f %d %s" % (m["maxit"], coq_run(m["solver"], s, m["maxit"], m["tol"]))))
     rc, out = coq_make(" ".join(MODEL_VO))
     if rc != 0:
         raise CoqRunError("model files do not build:\n" + out[-2000:])
-    res = run_coq(terms, tag + "_trace", IMPORTS, shard=max(4, (len(terms) + 3 * NPROC - 1) // (3 * NPROC)))
-    for k, c in enumerate(todo):
+    res = run_coq(terms, tag + "_trace", IMPORTS, shard=max(4, (len(terms) + 2 * NPROC - 1) // (2 * NPROC)))
+    for k, c in enumerate(need):
         TRACE[c.line] = Ans(decode_coq(res["t%d" % k]))
         TRACE_STATS["model_runs"] += 1
 
-def model_trace(case, tag):
-    if case.line not in TRACE:
-        PENDING.append(case)
-        ensure_traces(tag)
+def model_trace(case, tag, force=False):
+    """the float model's answer (with ghost trace) on this case; force: evaluate it even if the
+    C08 prescreen says the verdict does not depend on it"""
+    if case.line not in TRACE or (force and TRACE.get(case.line) is None):
+        if force:
+            keep = list(PENDING); del PENDING[:]
+            PENDING.append(case)
+            ensure_traces(tag, force=True)
+            PENDING.extend(keep)
+        else:
+            PENDING.append(case)
+            ensure_traces(tag)
     return TRACE.get(case.line)
+
+def breakdown_key(case, decoded, tag):
+    """cause of a failed run as decided by the MODEL's trace (only when model and implementation agree on
+    the outcome): an exact Lanczos breakdown.  Keys of the `open:` entries of KNOWN_FINDINGS.txt."""
+    a = Ans(decoded)
+    tr = model_trace(case, tag, force=True)
+    if tr is None or tr.panic or a.panic or tr.ok or a.ok:
+        return None
+    if f64_bits(tr.err) != f64_bits(a.err):
+        return None
+    sv = case.meta["solver"]
+    if sv in ("bicg1", "bicg2") and tr.exit == 2 and tr.err != tr.err:
+        return "solve_bicg/breakdown-nan"
+    if sv == "qmr" and tr.exit is not None and 20 <= tr.exit <= 25:
+        return "solve_qmr/breakdown"
+    if sv == "bicgstab" and tr.exit in (10, 11):
+        return "solve_bicgstab/breakdown"
+    return None
 
 # ----------------------------------------------------------------------------- numerics (reference side)
 def exact_residual_norm(s, x):
